@@ -185,13 +185,14 @@ theorem recorded_gates_wf (ops : List Clifford.Op) : GatesWF (ops.foldl (fun g o
 for every well-formed gate record on any number of qubits: whenever `to_symplectic_form` returns `t`,
 `apply(P, t)` is the identity tableau followed by the embedded adjoint-gate tableaux in reverse order. -/
 theorem circuit_sequential (gates : List Gate) (hwf : GatesWF gates) (t : Tab) (h : symplecticOf gates = .ok t) :
-    ∃ n, numQubit gates = .ok n ∧ t.n = n ∧
+    ∃ n, Clifford.numQubit gates = .ok n ∧ t.n = n ∧
       ∀ p, applyOnPauli p t = gates.reverse.foldl (gateAct n) (applyOnPauli p (Tab.id n)) :=
   symplecticOf_sequential' gates hwf dagger_tableaux_symplectic t h
 
 /-! ### end to end: the tableau answer is conjugation by the unitary of the exported circuit (C03), every `n` -/
 
 section conj
+open Matrix
 variable {R : Type} [CommRing R]
 
 /-- **One placed gate, every register size.**  For each of X, Y, Z, H, S (any qubit) and CX, CY, CZ (any ordered pair of
@@ -209,19 +210,19 @@ every phased Pauli `P` on its `n` qubits, `P · U = U · answer`, `answer = appl
 `U = circuitUnitary` = ordered product of the exported gates' operators. -/
 theorem circuit_conjugation_intertwine {I : R} (hI : I * I = -1) (h : R) (gates : List Gate) (hwf : GatesWF gates)
     (t : Tab) (ht : symplecticOf gates = .ok t) :
-    ∃ n, numQubit gates = .ok n ∧ t.n = n ∧ ∀ p : PauliB, p.v < 4 ^ n →
+    ∃ n, Clifford.numQubit gates = .ok n ∧ t.n = n ∧ ∀ p : PauliB, p.v < 4 ^ n →
       PM n I p * circuitUnitary I h n gates = circuitUnitary I h n gates * PM n I (applyOnPauli p t) :=
   circuit_conjugation_all hI h gates hwf t ht
 
 /-- the exported universal circuit (`to_universal_circuit`) is accepted by C03's index resolution … -/
-theorem export_compiles (I h : R) (gates : List Gate) (hwf : GatesWF gates) (n : Nat) (hn : numQubit gates = .ok n) :
+theorem export_compiles (I h : R) (gates : List Gate) (hwf : GatesWF gates) (n : Nat) (hn : Clifford.numQubit gates = .ok n) :
     ∃ ops : List (Numqi.Op n R), compileCircuit n (gates.map (exportRaw I h)) = some ops :=
   compileCircuit_export_isSome I h n gates hwf (fun g hg q hq => numQubit_spec hn g hg q hq)
 
 /-- … and `U` is literally C03's `Circuit.to_unitary` of it: `P · toUnitary = toUnitary · answer`. -/
 theorem circuit_conjugation_toUnitary {I : R} (hI : I * I = -1) (h : R) (gates : List Gate) (hwf : GatesWF gates)
     (t : Tab) (ht : symplecticOf gates = .ok t) :
-    ∃ n, numQubit gates = .ok n ∧ t.n = n ∧
+    ∃ n, Clifford.numQubit gates = .ok n ∧ t.n = n ∧
       ∀ ops : List (Numqi.Op n R), compileCircuit n (gates.map (exportRaw I h)) = some ops →
         ∀ p : PauliB, p.v < 4 ^ n →
           PM n I p * Matrix.of (toUnitary ops) = Matrix.of (toUnitary ops) * PM n I (applyOnPauli p t) :=
@@ -239,7 +240,7 @@ Pauli `P`, the tableau simulator's answer is the F2 form of `U† P U`, `U` the 
 phase included, for all `n`. -/
 theorem circuit_conjugation [StarRing R] {I h : R} (hI : I * I = -1) (hs : star I = -I) (hh : star h = h)
     (h2 : 2 * (h * h) = 1) (gates : List Gate) (hwf : GatesWF gates) (t : Tab) (ht : symplecticOf gates = .ok t) :
-    ∃ n, numQubit gates = .ok n ∧ t.n = n ∧ ∀ p : PauliB, p.v < 4 ^ n →
+    ∃ n, Clifford.numQubit gates = .ok n ∧ t.n = n ∧ ∀ p : PauliB, p.v < 4 ^ n →
       (circuitUnitary I h n gates)ᴴ * PM n I p * circuitUnitary I h n gates = PM n I (applyOnPauli p t) :=
   circuit_conjugation_star hI hs hh h2 gates hwf t ht
 
